@@ -79,7 +79,51 @@ HDR_BAD = [
     ["From:", "To: b@example.com"],                     # empty From
 ]
 BODY_LINES = ["hello", ".", "..", "...", ".x", ". ", "", "RSET", "QUIT", "DATA", "NOOP", "rset",
-              "MAIL FROM<z@example.com>", "LHLO again", "- dash", "tail\r", "\ttabbed", "x" * 30]
+              "MAIL FROM<z@example.com>", "LHLO again", "- dash", "tail\r", "\ttabbed", "x" * 30,
+              ".", ".", "MAIL FROM:<mallory@example.net>", "RCPT TO:<carol@example.com>"]
+
+# bodies for the dot probes: lines that are exactly dots (a single dot is sent
+# stuffed as ".."), dot-only runs, each possibly followed by LMTP look-alikes
+DOT_LINES = [".", ".", ".", "..", "...", "....", ".....", ". ", ".x", "..y"]
+LOOKALIKES = ["MAIL FROM:<mallory@example.net>", "RCPT TO:<carol@example.com>", "RSET", "QUIT", "NOOP", "DATA",
+              "mail from:<mallory@example.net>", "rcpt to:<carol@example.com>", "LHLO evil"]
+DOT_CONFIGS = [(2000, 1), (2000, 3), (2000, 5)]
+
+
+def gen_dot_body(rng):
+    hdr = rng.choice(HDR_OK[:2] + [["From: a@example.com", "To: b@example.com"]])
+    lines = [h.encode() + b"\r\n" for h in hdr] + [b"\r\n"]
+    if rng.random() < 0.5:
+        lines.append(b"before" + eol(rng, 0.1))
+    for _ in range(rng.randint(1, 4)):
+        lines.append(rng.choice(DOT_LINES).encode() + eol(rng, 0.15))
+        for _ in range(rng.choice([0, 1, 1, 2, 3])):
+            lines.append(rng.choice(LOOKALIKES).encode() + eol(rng, 0.1))
+    if rng.random() < 0.6:
+        lines.append(rng.choice([b"after", b".", b"last line"]) + eol(rng, 0.1))
+    return lines
+
+
+def gen_dot_program(rng, idx, mr):
+    """clean session: LHLO, 1..2 transactions with 1..mr fresh recipients each and a
+    dot-probe body, NOOP after each terminator, QUIT.  Returns (bytes, txs) with
+    txs = [(recipients, body_lines)]"""
+    out = [b"LHLO dots.example\r\n"]
+    txs = []
+    for t in range(rng.choice([1, 1, 2])):
+        n = rng.randint(1, mr)
+        rc = ["dp%dt%dr%d@example.com" % (idx, t, k) for k in range(n)]
+        body = gen_dot_body(rng)
+        out.append(b"MAIL FROM:<a@example.com>\r\n")
+        out += [("RCPT TO:<%s>\r\n" % r).encode() for r in rc]
+        out.append(b"DATA\r\n")
+        out += stuff(body)
+        out.append(rng.choice([b".\r\n", b".\r\n", b".\n"]))
+        out.append(b"NOOP\r\n")
+        txs.append((rc, body))
+    out.append(b"QUIT\r\n")
+    return b"".join(out), txs
+
 
 
 def rand_bytes_line(rng):
@@ -227,7 +271,13 @@ def gen_reader_cases(rng, n):
     for i in range(n):
         mx = rng.choice([0, 5, 20, 60, 200])
         r = rng.random()
-        if r < 0.75:
+        if i % 5 == 0:
+            # dot probe: a body of dot lines and LMTP look-alikes that fits the limit
+            b = gen_dot_body(rng)
+            term = rng.choice([b".\r\n", b".\n"])
+            rest = rng.choice([b"NOOP\r\n", b"QUIT\r\nrest", b"MAIL FROM:<n@example.com>\r\n"])
+            cases.append((b, term, rest, 2000, b"".join(stuff(b)) + term + rest))
+        elif r < 0.75:
             nl = rng.randint(0, 7)
             b = []
             for _ in range(nl):
@@ -299,7 +349,8 @@ def run_sessions(cases):
             part = idxs[k:k + 80]
             keys.append(part)
             scen.append([{"op": "lmtp_script", "max_size": ms, "max_recipients": mr,
-                          "programs": [{"input": C.latin(cases[i]["input"]), "chunk": cases[i]["chunk"]} for i in part]}])
+                          "programs": [dict({"input": C.latin(cases[i]["input"]), "chunk": cases[i]["chunk"]},
+                                            **({"observe": cases[i]["observe"]} if cases[i].get("observe") else {})) for i in part]}])
     res = C.run_many(scen, workers=8, timeout=900)
     for part, r in zip(keys, res):
         if r.get("crashed") or not r["obs"] or "rs" not in r["obs"][0]:
@@ -311,6 +362,7 @@ def run_sessions(cases):
             cases[i]["returned"] = o.get("returned")
             cases[i]["unread"] = o.get("unread")
             cases[i]["panic"] = o.get("panic")
+            cases[i]["stored"] = o.get("stored")
 
 
 COQ_HDR = C.COQ_CASE_HEADER + """From Raven Require Import Base.Enum Model.Lmtp Model.LmtpMsg Spec.LmtpDialog Spec.LmtpStream.
@@ -349,6 +401,111 @@ Definition chk_r (x : list str * str * str * Z * str * (bool * str * str)) : N :
 """
 
 
+COQ_DOTS = """
+Definition chk_d (x : Z * Z * str * list reply * option N * list (list (list str) * list (Z * str))) : N :=
+  let '(ms, mr, input, reps, unread, deliv) := x in
+  let c := {| max_size := ms; max_rcpts := mr |} in
+  let '(evs, rest) := session (msg_ok ms) (fun _ _ => true) c input in
+  let m := evs_match evs reps &&
+           match unread with Some n => N.eqb n (N.of_nat (length rest)) | None => true end in
+  let sp := stream_ok mr (fst (split_lines input)) reps in
+  let oct := forallb (fun '(e, o) => delivered_ok e o) deliv in
+  (b2n m 1 + b2n sp 2 + b2n oct 4)%N.
+"""
+
+
+def eval_dots(chk, cases):
+    """codes (m + 2*stream_ok + 4*delivered_ok) for the dot-probe sessions"""
+    items = []
+    for c in cases:
+        unread = "(Some %d%%N)" % c["unread"] if c["chunk"] == 1 and c.get("unread") is not None else "None"
+        # final reply of recipient k of transaction t, by position in the clean dialogue
+        pos = 1
+        deliv = []
+        for rc, body in c["txs"]:
+            n = len(rc)
+            first_final = pos + 1 + n + 1
+            for k, r in enumerate(rc):
+                code = c["reps"][first_final + k][0] if first_final + k < len(c["reps"]) else None
+                exp = [body] if code == 250 else []
+                obs = (c.get("stored") or {}).get(r)
+                if not isinstance(obs, list):
+                    obs = [[-1, ""]]
+                obs_c = "[" + "; ".join("(%d, %s)" % (o[0] if len(o) == 2 else -2, cb(C.unlatin(o[1]))) for o in obs) + "]"
+                exp_c = "[" + "; ".join("[" + "; ".join(cb(l) for l in b) + "]" for b in exp) + "]"
+                deliv.append("(%s, %s)" % (exp_c, obs_c))
+            pos = first_final + n + 1
+        items.append("(%d, %d, %s, %s, %s, %s)" % (c["ms"], c["mr"], cb(c["input"]),
+                                                    "[" + "; ".join(coq_reply(r) for r in c["reps"]) + "]", unread,
+                                                    "[" + "; ".join(deliv) + "]"))
+    body = COQ_HDR + COQ_DOTS
+    body += "Definition cases_d : list (Z * Z * str * list reply * option N * list (list (list str) * list (Z * str))) :=\n" + clist(items) + ".\n"
+    body += "Definition res_d := Eval vm_compute in map chk_d cases_d.\nPrint res_d.\n"
+    rc, log = C.coq_eval_cases("C16", body)
+    if rc != 0:
+        chk.broken_obligation("in-Coq evaluation of the C16 dot-probe cases failed:\n" + log[-2500:])
+        return None
+    r = parse_codes(log, "res_d")
+    if r is None or len(r) != len(cases):
+        chk.broken_obligation("could not read res_d from the Coq output:\n" + log[-1500:])
+        return None
+    return r
+
+
+def run_dot_probes(chk, n, stats):
+    """sessions whose bodies contain, before the real terminator, lines that are exactly
+    dots (sent stuffed) and LMTP look-alikes, with 1..max recipients; judged by the
+    executable spec: replies in step (stream_ok) and stored octets = submitted body
+    (delivered_ok)"""
+    rng = chk.rng
+    cases = []
+    for i in range(n):
+        ms, mr = rng.choice(DOT_CONFIGS)
+        inp, txs = gen_dot_program(rng, i, mr)
+        c = mk_case(inp, ms, mr, rng.choice([1, 0, 7]), {"flavour": "dots"})
+        c["txs"] = txs
+        c["observe"] = [r for rc, _ in txs for r in rc]
+        cases.append(c)
+    run_sessions(cases)
+    good = []
+    for c in cases:
+        if "crash" in c:
+            chk.broken_obligation("driver crashed while running the dot-probe sessions: %s" % c["crash"][:400], session_payload(c))
+            return []
+        if c.get("panic") or not c.get("returned"):
+            chk.violation("lmtp.Session.Handle panicked or did not return on %r" % c["input"][:200], session_payload(c))
+            continue
+        c["greet"], c["reps"], c["wf"] = parse_replies(c["out"])
+        good.append(c)
+    codes = eval_dots(chk, good)
+    if codes is None:
+        return good
+    for c, code in zip(good, codes):
+        m, sp, oct_ok = bool(code & 1), bool(code & 2), bool(code & 4)
+        stats["dot_probes"] = stats.get("dot_probes", 0) + 1
+        if sp and oct_ok:
+            if not m:
+                stats["disagreements"] += 1
+                chk.broken_obligation("correspondence session no longer checks on a dot-probe session (spec holds): replies %s to %r" % (
+                    [r[0] for r in c["reps"]], c["input"][:200]), session_payload(c))
+            continue
+        stats["dot_probe_violations"] = stats.get("dot_probe_violations", 0) + 1
+        if stats["dot_probe_violations"] > 3:
+            continue
+        payload = session_payload(c)
+        payload["stored"] = c.get("stored")
+        payload["submitted_bodies"] = [[rc, C.latin(b"".join(body))] for rc, body in c["txs"]]
+        if not sp:
+            what = ("a body line that is exactly dots (sent dot-stuffed) or an LMTP look-alike inside the message is not treated as data: "
+                    "replies %s to the stream %r are out of step (not one reply per recipient after the real terminator / body lines answered as commands)" % (
+                        [r[0] for r in c["reps"]], c["input"][:300]))
+        else:
+            what = ("message data not passed through exactly: the octets stored for the recipients differ from the submitted body "
+                    "(stream %r, stored %r)" % (c["input"][:300], c.get("stored")))
+        chk.violation(what, payload)
+    return good
+
+
 def coq_reply(rp):
     return "(%d%%N, %s)" % (rp[0], cb(rp[1]))
 
@@ -380,7 +537,8 @@ def eval_sessions(chk, cases):
 
 def session_payload(c):
     return {"suite": "session", "max_size": c["ms"], "max_recipients": c["mr"], "chunk": c["chunk"],
-            "input": C.latin(c["input"]), "replies": [[a, C.latin(b)] for a, b in c.get("reps", [])]}
+            "input": C.latin(c["input"]), "replies": [[a, C.latin(b)] for a, b in c.get("reps", [])],
+            "observe": c.get("observe") or []}
 
 
 def mk_case(inp, ms, mr, chunk, info=None, corpus=None):
@@ -419,7 +577,7 @@ def probe_neighbourhood(chk, c):
     """implementation != model, spec holds at this input: look nearby for an
     input on which the implementation violates the spec"""
     probes = []
-    good = b"MAIL FROM:<p@example.com>\r\nRCPT TO:<u1@example.com>\r\nRCPT TO:<u2@example.com>\r\nDATA\r\nFrom: p@example.com\r\nTo: q@example.com\r\n\r\n.. probe\r\nNOOP\r\n.\r\nNOOP\r\n"
+    good = b"MAIL FROM:<p@example.com>\r\nRCPT TO:<u1@example.com>\r\nRCPT TO:<u2@example.com>\r\nDATA\r\nFrom: p@example.com\r\nTo: q@example.com\r\n\r\n.. probe\r\n..\r\nMAIL FROM:<mallory@example.net>\r\n...\r\nNOOP\r\n.\r\nNOOP\r\n"
     base = c["input"]
     cut = base.rfind(b"QUIT")
     stem = base if cut < 0 else base[:cut]
@@ -452,6 +610,10 @@ def run(chk):
     n_reader = 500 if quick else 5000
     n_parse = 150 if quick else 1500
     stats = {"evaluated": 0, "spec_violations_seen": 0, "disagreements": 0}
+
+    # ---------------- dot probes: run first so that their session replays head the report;
+    # they are also the property-level search consulted after a reader mismatch
+    dots = run_dot_probes(chk, 24 if quick else 400, stats)
 
     # ---------------- direct calls: reader, parse, verdict
     rcases = gen_reader_cases(rng, n_reader)
@@ -503,6 +665,7 @@ def run(chk):
     nd = 0
     n_over = 0
     n_rv = 0
+    reader_pending = []
     for (b, term, rest, mx, s), o, code in zip(rcases, r_reader, cr):
         payload = {"suite": "reader", "stream": C.latin(s), "max": mx, "impl": o}
         if code & 32:
@@ -523,7 +686,7 @@ def run(chk):
             nd += 1
             if nd > 3:
                 continue
-            chk.broken_obligation("correspondence reader no longer checks: ReadDataCommand differs from Model.Lmtp.read_data_cmd on %r (max=%d): %s" % (s[:120], mx, o), payload)
+            reader_pending.append(("correspondence reader no longer checks: ReadDataCommand differs from Model.Lmtp.read_data_cmd on %r (max=%d): %s" % (s[:120], mx, o), payload))
     for a, mo, ro, code in zip(pargs, r_mail, r_rcpt, cp):
         if code != 3:
             nd += 1
@@ -578,10 +741,18 @@ def run(chk):
             chk.broken_obligation("correspondence session no longer checks: replies %s to %r differ from Model.Lmtp.session (max_size=%d max_recipients=%d) and no spec-violating input was found nearby" % (
                 [r[0] for r in c["reps"]], c["input"][:200], c["ms"], c["mr"]), session_payload(c))
 
+    # ---------------- reader mismatches: with a property-level failing input at hand they are notes
+    real = [v for v in chk.violations if not v[2]]
+    for what, payload in reader_pending:
+        if real:
+            chk.notes.append(what + " -- a property-level failing input was found (see the VIOLATION entries)")
+        else:
+            chk.broken_obligation(what, payload)
+
     # ---------------- evidence
     with_tx = [c for c in good if any(r[0] == 354 for r in c["reps"])]
-    chk.cov["evaluations"] = len(rcases) + 2 * len(pargs) + len(msgs) + len(good)
-    chk.cov["traces_validated_against_impl"] = len(good)
+    chk.cov["evaluations"] = len(rcases) + 2 * len(pargs) + len(msgs) + len(good) + len(dots)
+    chk.cov["traces_validated_against_impl"] = len(good) + len(dots)
     chk.cov["distinct_nontrivial"] = len(set(c["input"] for c in with_tx)) + len(set(s for (b, t, r, mx, s) in rcases if t and b))
     chk.cov["rule"] = ("session: distinct client byte streams (seeded; LHLO/MAIL/RCPT/DATA variants in case and spacing, ESMTP parameters, RSET, repeated MAIL, "
                        "0..max+2 recipients, bodies from a menu of well-formed / From-less / header-less / unparsable messages with lines of dots, LMTP commands, "
@@ -599,6 +770,9 @@ def run(chk):
     if stats.get("unreported_violations"):
         chk.notes.append("%d further spec-violating sessions not written out (first 5 reported)" % stats["unreported_violations"])
     chk.cov["reader_cases"] = {"total": len(rcases), "structured": sum(1 for x in rcases if x[1]), "oversize": n_over}
+    chk.cov["dot_probe_sessions"] = {"total": len(dots), "recipients_observed": sum(len(c["observe"]) for c in dots),
+                                     "violations": stats.get("dot_probe_violations", 0),
+                                     "judged_by": "stream_ok (one reply per recipient, body not dispatched) and delivered_ok (stored size and text = submitted body)"}
     chk.cov["parse_cases"] = len(pargs)
     chk.cov["verdict_cases"] = len(msgs)
     for c in with_tx[:3]:
@@ -610,9 +784,13 @@ def replay(path):
     d = json.load(open(path))
     if d.get("suite") == "session":
         c = mk_case(C.unlatin(d["input"]), d["max_size"], d["max_recipients"], d.get("chunk", 1))
+        c["observe"] = d.get("observe") or []
         run_sessions([c])
         print("input:  %r" % c["input"])
         print("output: %r" % c.get("out"))
+        if c["observe"]:
+            print("stored: %r" % c.get("stored"))
+            print("submitted: %r" % d.get("submitted_bodies"))
         print("returned=%s unread=%s panic=%s" % (c.get("returned"), c.get("unread"), c.get("panic")))
     elif d.get("suite") == "reader":
         print(C.run_ops([{"op": "call", "fn": "ReadDataCommand", "a": [d["stream"]], "n": [d["max"]]}]))
